@@ -42,7 +42,8 @@ from vivarium.library.topology import (
     inverse_topology,
     normalize_path,
 )
-from vivarium.library.dict_utils import apply_func_to_leaves, deep_merge
+from vivarium.library.dict_utils import (
+    apply_func_to_leaves, deep_copy_internal, deep_merge)
 from vivarium.core.types import (
     HierarchyPath, Topology, State, Update, Processes, Steps,
     Flow, Schema)
@@ -560,10 +561,20 @@ class Engine:
                 self._parallelize_processes(self.steps)
             )
 
+            # The engine edits its topology and flow level by level when
+            # the hierarchy changes: they get dictionaries of their own
+            # (as the processes and steps did above), so that two
+            # compartments wired from one template stay apart and the
+            # caller's dictionaries are left alone.
+            self.topology = deep_copy_internal(self.topology)
+            self.flow = deep_copy_internal(self.flow)
+
             # put the parallelized processes back in the composite.
             if composite:
                 composite['processes'] = self.processes
                 composite['steps'] = self.steps
+                composite['topology'] = self.topology
+                composite['flow'] = self.flow
 
             # initialize the store
             self.state: Store = generate_state(
